@@ -19,10 +19,19 @@ func init() {
 		r.rule += "; whole-validator stream: mode x OCSP scenario (none, good, unknown, revoked, unavailable, cached) x CRL source (CDP, crl_urls, crl_files) x list " +
 			"size x position x encoding x serial width x entry extensions x backend, verdict compared with the regenerated statement list of VerifyClientCertificate"
 		c01Validator(r)
+		c11Numberless(r, "C01")
 	})
-	register("C08", func(r *Run) { runRepoProps(r, "C08") })
+	register("C08", func(r *Run) {
+		runRepoProps(r, "C08")
+		r.rule += "; plus refresh scenarios with lists that carry no cRLNumber, the same thisUpdate or the same number (the refreshed list must be in force)"
+		c11Numberless(r, "C08")
+	})
 	register("C10", func(r *Run) { runRepoProps(r, "C10") })
-	register("C11", func(r *Run) { runRepoProps(r, "C11") })
+	register("C11", func(r *Run) {
+		runRepoProps(r, "C11")
+		r.rule += "; plus refresh scenarios with lists that carry no cRLNumber (v1, v2 without the extension), the same thisUpdate or the same number"
+		c11Numberless(r, "C11")
+	})
 	register("C16", func(r *Run) { runRepoProps(r, "C16") })
 }
 
